@@ -1,7 +1,7 @@
 """Per-format profiles: which model features the renderer can express, how to render, how the documentation places text."""
 from __future__ import annotations
 
-from vf.gen import odf, ooxml
+from vf.gen import odf, ooxml, rtfgen, simple
 
 FLOW_INLINE = {"run.multi", "run.tab", "run.break", "run.link"}
 
@@ -38,4 +38,45 @@ PROFILES = {
         "features": FLOW_INLINE | {"list.flat", "list.nested", "table.simple", "container.group", "container.custom-shape", "unit.multi", "unit.empty"},
         "table_text_in_full_text": True, "unit_kind": "page-merged", "max_units": 3,
     },
+    "rtf": {
+        "ext": "rtf", "render": lambda doc, **kw: rtfgen.render_rtf(doc, **kw), "selfcheck": rtfgen.balanced,
+        "features": FLOW_INLINE | {"run.ins", "run.del", "run.comment-ref", "run.note-ref", "run.field", "para.heading", "list.flat", "list.nested", "table.simple",
+                                   "table.multi-para-cell", "table.empty-cell", "excluded.header-footer", "excluded.comment", "unit.multi"},
+        "table_text_in_full_text": True, "unit_kind": "page", "max_units": 3, "decoration": [], "residue_ignore": r"\b\d{1,3}\.",  # \\listtext numbering
+        "opts": {"u_words": [False, False, True], "spaced_cells": [True, True, False]},
+    },
+    "html": {
+        "ext": "html", "render": lambda doc, **kw: simple.render_html(doc, **kw),
+        "features": FLOW_INLINE | {"run.ins", "run.comment-ref", "container.sdt.inline", "para.heading", "list.flat", "list.nested", "table.simple", "table.multi-para-cell",
+                                   "table.nested", "table.empty-cell", "table.header-rows", "container.section", "container.group", "excluded.header-footer", "excluded.comment"},
+        "table_text_in_full_text": True, "unit_kind": "single", "max_units": 1,
+    },
+    "mhtml": {
+        "ext": "mhtml", "render": lambda doc, **kw: simple.render_mhtml(doc, **kw),
+        "features": FLOW_INLINE | {"run.ins", "para.heading", "list.flat", "list.nested", "table.simple", "table.multi-para-cell", "table.empty-cell", "container.section",
+                                   "excluded.header-footer"},
+        "table_text_in_full_text": True, "unit_kind": "single", "max_units": 1,
+    },
+    "epub": {
+        "ext": "epub", "render": lambda doc, **kw: simple.render_epub(doc, **kw),
+        "features": FLOW_INLINE | {"run.ins", "run.comment-ref", "para.heading", "list.flat", "list.nested", "table.simple", "table.multi-para-cell", "table.empty-cell",
+                                   "table.header-rows", "container.section", "excluded.comment", "unit.multi", "unit.empty"},
+        "table_text_in_full_text": False, "unit_kind": "chapter", "max_units": 4, "unit_names": "Chapter ",
+    },
+    "txt": {"sep_any": True, "ext": "txt", "render": lambda doc, **kw: simple.render_txt(doc, **kw), "features": {"run.multi", "run.tab", "run.break", "para.heading", "list.flat", "list.nested", "table.simple"},
+            "table_text_in_full_text": True, "unit_kind": "single", "max_units": 1},
+    "md": {"sep_any": True, "ext": "md", "render": lambda doc, **kw: simple.render_md(doc, **kw), "features": {"run.multi", "run.break", "para.heading", "list.flat", "list.nested", "table.simple"},
+           "table_text_in_full_text": True, "unit_kind": "single", "max_units": 1},
+    "csv": {"sep_any": True, "ext": "csv", "render": lambda doc, **kw: simple.render_csv(doc, **kw), "features": {"run.multi", "table.simple", "table.empty-cell"},
+            "table_text_in_full_text": True, "unit_kind": "single", "max_units": 1},
+    "tsv": {"sep_any": True, "ext": "tsv", "render": lambda doc, **kw: simple.render_tsv(doc, **kw), "features": {"run.multi", "table.simple", "table.empty-cell"},
+            "table_text_in_full_text": True, "unit_kind": "single", "max_units": 1},
+    "json": {"sep_any": True, "ext": "json", "render": lambda doc, **kw: simple.render_json(doc, **kw), "features": {"run.multi", "list.flat", "table.simple"},
+             "table_text_in_full_text": True, "unit_kind": "single", "max_units": 1, "decoration": ["units", "lines"]},
+    "pdf": {"ext": "pdf", "render": lambda doc, **kw: simple.render_pdf(doc, **kw), "features": {"run.multi", "run.break", "list.flat", "list.nested", "table.simple", "unit.multi", "unit.empty"},
+            "table_text_in_full_text": True, "unit_kind": "page", "max_units": 3},
+    "eml": {"ext": "eml", "render": lambda doc, **kw: simple.render_eml(doc, **kw), "features": {"run.multi", "run.break", "list.flat", "table.simple"},
+            "table_text_in_full_text": True, "unit_kind": "message", "max_units": 1},
+    "mbox": {"ext": "mbox", "render": lambda doc, **kw: simple.render_mbox(doc, **kw), "features": {"run.multi", "run.break", "list.flat", "table.simple", "unit.multi"},
+             "table_text_in_full_text": True, "unit_kind": "message", "max_units": 3},
 }
